@@ -7,10 +7,23 @@ def repo_suite(name, impl, mode, pred, quick, thorough, length=40, extra=None, c
     cfg = cfg or ("cfg_inmem" if impl == "inmem" else "cfg_ent")
     return {
         "name": name, "cmd": ["repo", "--impl", impl, "--mode", mode, "--len", str(length)] + (extra or []),
-        "cfg": cfg, "header": REPO_HEADER, "hist_type": "hist",
+        "cfg": cfg, "header": REPO_HEADER.replace("PropCheck", "Findings"), "hist_type": "hist",
         "eval": "Definition M := Eval vm_compute in mismatches %s cases.\nPrint M.\n"
                 "Definition V := Eval vm_compute in violations %s %s cases.\nPrint V." % (cfg, pred, cfg),
         "diag": "Eval vm_compute in expect_at %s h {i}." % cfg,
+        "quick": quick, "thorough": thorough,
+    }
+
+
+def snap_suite(name, quick, thorough, length=50):
+    return {
+        "name": name, "cmd": ["repo", "--impl", "inmem", "--mode", "c14", "--len", str(length)],
+        "cfg": "cfg_inmem", "header": REPO_HEADER, "hist_type": "snapcase",
+        "eval": "Definition M := Eval vm_compute in snap_mismatches_from cfg_inmem cases 0.\nPrint M.\n"
+                "Definition V := Eval vm_compute in snap_violations_from cases 0.\nPrint V.",
+        "diag": "Eval vm_compute in (snap_mismatch cfg_inmem h, lockstep (sn_a h) (sn_b h) 0, "
+                "expect_at cfg_inmem (sn_pre h ++ sn_a h) ({i} mod 1000), "
+                "nth_error (sn_b h) ({i} mod 1000 - List.length (sn_pre h))).",
         "quick": quick, "thorough": thorough,
     }
 
@@ -19,6 +32,26 @@ SUITES = {
     "C01": {"suites": [
         repo_suite("c01-inmem", "inmem", "c01", "p_C01", {"n": 25, "shards": 8}, {"n": 200, "shards": 16, }),
         repo_suite("c01-ent", "ent", "c01", "p_C01", {"n": 20, "shards": 6}, {"n": 150, "shards": 16}),
+    ]},
+    "C02": {"suites": [
+        repo_suite("c02-inmem", "inmem", "c02", "p_C02", {"n": 25, "shards": 8}, {"n": 200, "shards": 16}),
+        repo_suite("c02-ent", "ent", "c02", "p_C02", {"n": 15, "shards": 6}, {"n": 120, "shards": 16}),
+    ]},
+    "C11": {"suites": [
+        repo_suite("c11-inmem", "inmem", "c11", "p_C11", {"n": 20, "shards": 8}, {"n": 150, "shards": 16}),
+        repo_suite("c11-ent", "ent", "c11", "p_C11", {"n": 12, "shards": 5}, {"n": 100, "shards": 16}),
+        repo_suite("c11-inmem-keys", "inmem", "c11", "p_C11", {"n": 10, "shards": 1}, {"n": 100, "shards": 4}, extra=["--quotekeys"]),
+        repo_suite("c11-ent-keys", "ent", "c11", "p_C11", {"n": 10, "shards": 2}, {"n": 100, "shards": 8}, extra=["--quotekeys"]),
+    ]},
+    "C13": {"suites": [
+        repo_suite("c13-ent", "ent", "c13", "(p_and p_C13 (p_and p_C01 (p_and p_C02 p_C12)))", {"n": 15, "shards": 12}, {"n": 120, "shards": 16}),
+    ]},
+    "C14": {"suites": [
+        snap_suite("c14-snap", {"n": 20, "shards": 12}, {"n": 150, "shards": 16}),
+    ]},
+    "C19": {"suites": [
+        repo_suite("c19-inmem", "inmem", "c01", "p_C19", {"n": 20, "shards": 6}, {"n": 150, "shards": 16}, extra=["--scribble"]),
+        repo_suite("c19-ent", "ent", "c13", "p_C19", {"n": 15, "shards": 6}, {"n": 100, "shards": 16}, extra=["--scribble"]),
     ]},
     "C12": {"suites": [
         repo_suite("c12-inmem", "inmem", "c01", "p_C12", {"n": 25, "shards": 7}, {"n": 200, "shards": 16}),
@@ -29,6 +62,11 @@ SUITES = {
 PROP_FILES = {
     "C01": ["Props/C01.v"],
     "C12": ["Props/C12.v"],
+    "C02": ["Props/C02.v"],
+    "C11": ["Props/C11.v"],
+    "C13": ["Props/C13.v"],
+    "C14": ["Props/C14.v"],
+    "C19": ["Props/C19.v"],
 }
 
 TRUSTED_BASE = [
@@ -44,4 +82,6 @@ ASSUMPTIONS = [
     "instants are >= Go zero time; Go's Truncate = floor on the absolute instant",
 ]
 
-PARTIAL = {}
+PARTIAL = {
+    "C13": "durability and single-statement atomicity of SQLite are assumed by the model (each acknowledged operation = one transition); exercised by the harness, not proved",
+}
